@@ -139,6 +139,10 @@ pub enum Op {
     WakeRef(usize),
     DropWaker(usize),
     AwWake(usize),
+    WakeQ(usize),
+    AwTake(usize),
+    WClone(usize),
+    WakeH(usize),
     Stop,
     Explore,
     Skip,
@@ -320,6 +324,10 @@ fn parse_op(t: &[&str]) -> Option<Op> {
         ["wakeref", f] => Op::WakeRef(n(f)?),
         ["dropwaker", f] => Op::DropWaker(n(f)?),
         ["awwake", f] => Op::AwWake(n(f)?),
+        ["wakeq", f] => Op::WakeQ(n(f)?),
+        ["awtake", f] => Op::AwTake(n(f)?),
+        ["wclone", f] => Op::WClone(n(f)?),
+        ["wakeh", f] => Op::WakeH(n(f)?),
         ["stop"] => Op::Stop,
         ["explore"] => Op::Explore,
         ["skip"] => Op::Skip,
